@@ -115,6 +115,7 @@ def armed_call(fn, allowed_writes=(), analysed=()):
     ARMED["events"] = []
     ARMED["exec_seen"] = 0
     ARMED["allowed_writes"] = tuple(os.path.realpath(p) for p in allowed_writes)
+    loaded_before = set(sys.modules)
     ARMED["on"] = True
     try:
         try:
@@ -124,6 +125,11 @@ def armed_call(fn, allowed_writes=(), analysed=()):
             outcome = "raised:" + type(e).__name__
     finally:
         ARMED["on"] = False
+    # importlib.import_module() raises no "import" audit event: what the call left in sys.modules is compared as well
+    for name in sorted(set(sys.modules) - loaded_before):
+        if name.split(".")[0] not in ALLOWED_TOP:
+            ARMED["events"].append({"event": "module-loaded", "module": name,
+                                    "filename": getattr(sys.modules.get(name), "__file__", None)})
     return outcome, ARMED["events"], ARMED.get("exec_seen", 0)
 
 
